@@ -23,7 +23,7 @@ EXTENDS Naturals, Integers, Sequences, FiniteSets, TLC, Json
 CONSTANTS
   Api,        \* "kzg10" | "stream" | "mlpst"
   Tree,       \* "pinned" | "fixed"  (code facts)
-  Mode,       \* "honest" | "adv"
+  Mode,       \* "honest" | "adv" | "adm"
   MaxClaims,  \* kzg10: positions of a batch; stream: number of polynomials
   Emit
 
@@ -248,14 +248,58 @@ Plans(s) ==
   IN IF Mode = "honest" THEN {p \in all : p.name = "honest"} ELSE {p \in all : p.name # "honest"}
 
 \* --------------------------------------------------------------------------
+\* admission (C17): one request at a boundary magnitude instead of the commit; `cls` is what the
+\* property demands ("ok": in-domain, must not abort and its honest continuation verifies;
+\* "refuse": Err or abort, never a result; "any": the statement is silent)
+\* code fact: does MultilinearPC::commit compare the polynomial's number of variables with the key's?
+\* (`open` always did; defect D11 of DESIGN.md)
+MlCommitGuardsNumVars == Tree = "fixed"
+AdmReqs ==
+  CASE Api = "kzg10" ->
+         {[op |-> "commit", deg |-> d, hid |-> h, rng |-> r] :
+             d \in {cfg.sup, cfg.sup + 1}, h \in {NONE, 0, 1, cfg.sup - 1, cfg.sup}, r \in BOOLEAN}
+         \cup {[op |-> "open", deg |-> cfg.sup + 1, hid |-> NONE, rng |-> TRUE]}
+    [] Api = "mlpst" ->
+         {[op |-> o, nv |-> n] : o \in {"commit", "open"}, n \in {cfg.sup - 1, cfg.sup, cfg.sup + 1}}
+         \cup {[op |-> "setup", nv |-> n] : n \in {0, 1}}
+         \cup {[op |-> "trim", nv |-> n] : n \in {cfg.nv, cfg.nv + 1}}
+    [] Api = "stream" ->      \* not among the files C17 is anchored in: observed, never judged
+         {[op |-> "commit", len |-> l] : l \in {cfg.maxd + 1, cfg.maxd + 2}}
+AdmExpect(r) ==
+  CASE Api = "kzg10" ->
+         IF r.deg > cfg.sup THEN "refuse"
+         ELSE IF r.hid = NONE THEN "ok"
+         ELSE IF ~r.rng THEN "refuse"
+         ELSE IF r.hid >= cfg.sup THEN "refuse"      \* blinding polynomial of degree hid+1 needs hid+2 powers
+         ELSE IF r.hid = 0 THEN "any"
+         ELSE "ok"
+    [] Api = "mlpst" ->
+         CASE r.op = "setup" -> IF r.nv = 0 THEN "refuse" ELSE "ok"
+           [] r.op = "trim" -> IF r.nv > cfg.nv THEN "refuse" ELSE "ok"
+           [] OTHER -> IF r.nv = cfg.sup THEN "ok" ELSE "refuse"
+    [] Api = "stream" -> IF r.len <= cfg.maxd + 1 THEN "ok" ELSE "any"
+\* what the code does (only the mlpst commit differs from the expectation on the pinned tree)
+AdmPredict(r) ==
+  IF Api = "mlpst" /\ r.op = "commit" /\ r.nv # cfg.sup /\ ~MlCommitGuardsNumVars THEN "ok"
+  ELSE IF Api = "stream" THEN "ok"
+  ELSE IF AdmExpect(r) = "any" THEN "ok" ELSE AdmExpect(r)
+
+\* --------------------------------------------------------------------------
 Init ==
   /\ pc = "setup" /\ cfg = [x |-> 0] /\ polys = <<>> /\ stmt = [x |-> 0] /\ advname = "" /\ want = "" /\ out = [x |-> 0]
 
 Setup ==
   /\ pc = "setup"
   /\ \E c \in Cfgs : cfg' = c
-  /\ pc' = "commit"
+  /\ pc' = IF Mode = "adm" THEN "admit" ELSE "commit"
   /\ UNCHANGED <<polys, stmt, advname, want, out>>
+
+Admit ==
+  /\ pc = "admit"
+  /\ \E r \in AdmReqs : stmt' = r /\ want' = AdmExpect(r) /\ out' = [batch |-> AdmPredict(r), singles |-> <<>>, true |-> TRUE]
+  /\ advname' = "adm"
+  /\ pc' = "done"
+  /\ UNCHANGED <<cfg, polys>>
 
 Commit ==
   /\ pc = "commit"
@@ -287,14 +331,17 @@ Check ==
   /\ pc' = "done"
   /\ UNCHANGED <<cfg, polys, stmt, advname, want>>
 
-Next == Setup \/ Commit \/ Claim \/ Adv \/ Check
+Next == Setup \/ Admit \/ Commit \/ Claim \/ Adv \/ Check
 Spec == Init /\ [][Next]_vars
 
 \* --------------------------------------------------------------------------
 \* invariants: the properties on the faithful model (they read `out`, never the code facts)
-Done == pc = "done"
+Done == pc = "done" /\ Mode # "adm"
+AdmDone == pc = "done" /\ Mode = "adm"
+\* C17: the code model refuses what the property says must be refused and admits what is in-domain
+D_Refusals == AdmDone => (want = "refuse" => out.batch = "refuse") /\ (want = "ok" => out.batch = "ok")
 AndOfSingles == \A i \in DOMAIN out.singles : out.singles[i] = "accept"
-TypeOK == pc \in {"setup", "commit", "claim", "adv", "check", "done"}
+TypeOK == pc \in {"setup", "admit", "commit", "claim", "adv", "check", "done"}
 \* C01
 D_HonestAccepted == Done /\ want = "accept" => out.batch = "accept" /\ AndOfSingles
 \* C02 / C03: acceptance implies that everything shown is true
@@ -312,5 +359,5 @@ D_BatchIsAndOfSingles == Done /\ Api = "kzg10" /\ EqualLens(stmt) => ((out.batch
 Behaviour ==
   [api |-> Api, scheme |-> Api, tag |-> advname, want |-> want, cfg |-> cfg, polys |-> polys, stmt |-> stmt,
    model |-> <<[res |-> out.batch, singles |-> out.singles, true |-> out.true]>>]
-EmitReplay == (Emit /\ Done) => PrintT(<<"REPLAY", ToJson(Behaviour)>>)
+EmitReplay == (Emit /\ pc = "done") => PrintT(<<"REPLAY", ToJson(Behaviour)>>)
 =============================================================================
